@@ -178,6 +178,18 @@ AnswerOK(m, c, g, slot, res, gv, cnt) ==
   ELSE /\ res = "ok"       \* a condition of the grammar over existing keys of an existing metric is never an error
        /\ GroupsOK(Visible(m, c, slot), g, gv, cnt)
 
+\* the tag value dictionary of key k as the metadata database lists it (FindTagValueIDsForTag + CollectTagValues):
+\* entries = <<value index (position in vals[k]; <= 0: an id without a string / a string nobody wrote), id>> pairs.
+\* vals[k] IS the dictionary (the value id is the pair (k, index): dictionary entries are created once, in every
+\* placement of the entry, also when the lookup runs while a flush commits): every created value is listed, exactly
+\* once, under one id.  A value with a second id has its posting lists split over two ids.
+DictOK(k, entries) ==
+  LET n == Len(entries) IN
+  /\ k \in Keys
+  /\ n = Len(vals[k])
+  /\ {entries[i][1] : i \in 1..n} = 1..Len(vals[k])
+  /\ Cardinality({entries[i][2] : i \in 1..n}) = n
+
 -------------------------------------------------------------------------------
 (* implementation shape: dictionary -> postings -> bitmap algebra *)
 
